@@ -14,8 +14,10 @@ type c07I interface{ c07M() }
 
 func (c07A) c07M() {}
 
-// type codes: 0 A, 1 B, 2 I, 3 any, 4 string, 5 map[string]any
-var c07Names = []string{"A", "B", "I", "any", "string", "map"}
+type c07Params map[string]any
+
+// type codes: 0 A, 1 B, 2 I, 3 any, 4 string, 5 map[string]any, 6 named map type
+var c07Names = []string{"A", "B", "I", "any", "string", "map", "Params"}
 
 func c07IsIface(t int) bool { return t == 2 || t == 3 }
 
@@ -57,6 +59,8 @@ func c07DynFits(dyn, to int) bool {
 		return dyn == 2
 	case 5:
 		return dyn == 3
+	case 6:
+		return dyn == 5
 	}
 	return false
 }
@@ -71,6 +75,8 @@ func c07Value(dyn int) any {
 		return "s"
 	case 3:
 		return map[string]any{"k": 1}
+	case 5:
+		return c07Params{"k": 1}
 	}
 	return nil
 }
@@ -92,6 +98,9 @@ func c07Producer(outT int, dyn int) (*Lambda, bool) {
 	case 4:
 		s, ok := v.(string)
 		return InvokableLambda(func(ctx context.Context, in any) (string, error) { return s, nil }), ok
+	case 6:
+		m, ok := v.(c07Params)
+		return InvokableLambda(func(ctx context.Context, in any) (c07Params, error) { return m, nil }), ok
 	default:
 		m, ok := v.(map[string]any)
 		return InvokableLambda(func(ctx context.Context, in any) (map[string]any, error) { return m, nil }), ok
@@ -110,6 +119,8 @@ func c07Consumer(inT int, got *any) *Lambda {
 		return InvokableLambda(func(ctx context.Context, in any) (any, error) { *got = in; return 1, nil })
 	case 4:
 		return InvokableLambda(func(ctx context.Context, in string) (any, error) { *got = in; return 1, nil })
+	case 6:
+		return InvokableLambda(func(ctx context.Context, in c07Params) (any, error) { *got = in; return 1, nil })
 	default:
 		return InvokableLambda(func(ctx context.Context, in map[string]any) (any, error) { *got = in; return 1, nil })
 	}
@@ -128,6 +139,8 @@ func c07Branch(inT int, target string) *GraphBranch {
 		return NewGraphBranch(func(ctx context.Context, in any) (string, error) { return target, nil }, ends)
 	case 4:
 		return NewGraphBranch(func(ctx context.Context, in string) (string, error) { return target, nil }, ends)
+	case 6:
+		return NewGraphBranch(func(ctx context.Context, in c07Params) (string, error) { return target, nil }, ends)
 	default:
 		return NewGraphBranch(func(ctx context.Context, in map[string]any) (string, error) { return target, nil }, ends)
 	}
@@ -137,10 +150,10 @@ func c07Branch(inT int, target string) *GraphBranch {
 func c07Chain(np int, useBranch bool) {
 	ctx := context.Background()
 	vcfg("fifo", 1)
-	outT := vchoose("outT", 6)
-	inT := vchoose("inT", 6)
-	dyn := vchoose("dyn", 5)
-	desc := "x:" + c07Names[outT] + " -> y:" + c07Names[inT] + " dyn=" + []string{"A", "B", "string", "map", "nil"}[dyn]
+	outT := vchoose("outT", 7)
+	inT := vchoose("inT", 7)
+	dyn := vchoose("dyn", 6)
+	desc := "x:" + c07Names[outT] + " -> y:" + c07Names[inT] + " dyn=" + []string{"A", "B", "string", "map", "nil", "Params"}[dyn]
 	prod, canProduce := c07Producer(outT, dyn)
 	if !canProduce {
 		return // node x cannot produce this dynamic value with its static output type
@@ -165,7 +178,7 @@ func c07Chain(np int, useBranch bool) {
 	if useBranch {
 		// the last hop into y is a branch (targets y | END) whose condition has its own input type
 		edges = edges[:len(edges)-1]
-		brT = vchoose("brT", 6)
+		brT = vchoose("brT", 7)
 		desc += " branch:" + c07Names[brT]
 	}
 	// any order of the AddEdge calls
@@ -226,3 +239,48 @@ func VerifC07Pass1()  { c07Chain(1, false) }
 func VerifC07Pass2()  { c07Chain(2, false) }
 func VerifC07Branch() { c07Chain(0, true) }
 func VerifC07BranchPass() { c07Chain(1, true) }
+
+// a node with an output key (declared output map[string]any) and an any-typed node both feed a pass-through
+// whose type was inferred from the keyed node first; the consumer takes map[string]any
+func VerifC07OutputKey() {
+	ctx := context.Background()
+	vcfg("fifo", 1)
+	dyn := vchoose("dyn", 3) // what the any-typed node produces: 0 map, 1 string, 2 nil
+	order := vchoose("order", 2)
+	g := NewGraph[any, any]()
+	_ = g.AddLambdaNode("k", InvokableLambda(func(ctx context.Context, in any) (string, error) { return "v", nil }), WithOutputKey("k"))
+	_ = g.AddLambdaNode("n", InvokableLambda(func(ctx context.Context, in any) (any, error) {
+		switch dyn {
+		case 0:
+			return map[string]any{"n": 1}, nil
+		case 1:
+			return "s", nil
+		}
+		return nil, nil
+	}))
+	_ = g.AddPassthroughNode("p")
+	var got map[string]any
+	_ = g.AddLambdaNode("m", InvokableLambda(func(ctx context.Context, in map[string]any) (any, error) { got = in; return 1, nil }))
+	e1 := g.AddEdge(START, "k")
+	e2 := g.AddEdge(START, "n")
+	var e3, e4 error
+	if order == 0 {
+		e3 = g.AddEdge("k", "p")
+		e4 = g.AddEdge("n", "p")
+	} else {
+		e4 = g.AddEdge("n", "p")
+		e3 = g.AddEdge("k", "p")
+	}
+	e5 := g.AddEdge("p", "m")
+	e6 := g.AddEdge("m", END)
+	r, cerr := g.Compile(ctx)
+	vassert(e1 == nil && e2 == nil && e3 == nil && e4 == nil && e5 == nil && e6 == nil && cerr == nil, "graph with keyed node, any-typed node and pass-through compiles")
+	_, rerr := r.Invoke(ctx, 0)
+	if dyn == 0 {
+		vassert(rerr == nil, "a map value from the any-typed node is accepted by the run-time check of the inferred connection")
+		vassert(len(got) == 2, "the consumer receives the merge of both maps")
+	} else {
+		vassert(rerr != nil, "a non-map value from the any-typed node is reported")
+		vassert(!strings.Contains(rerr.Error(), "panic"), "the mismatch is an ordinary error, not a recovered panic")
+	}
+}
